@@ -8,7 +8,7 @@ LEVEL = 'exploration'
 RULE = ('every ordered pair of same-typed patterns of the catalogue (100 index-type tuples, 606 patterns) x default pairs '
         'over {0,1,-1,inf} x physical contents: ALL assignments of {0,1,1.5} to the physical elements when the two '
         'tensors together have <= 3 (thorough 4) of them, otherwise "b := re-patterned copy of a" with every single-element '
-        'perturbation by {1e-9, 0.5}; equal and allclose under (rtol,atol) in {(1e-5,1e-8),(0,0.5),(0.4,0)} '
+        'perturbation by {1e-9, 0.5}, plus a NaN / +inf / -inf element and a NaN default (compared with a re-patterned copy, a clone and the very same object); equal and allclose under (rtol,atol) in {(1e-5,1e-8),(0,0.5),(0.4,0)} '
         'against torch.equal / torch.allclose on to_dense(), both argument orders; equal_default / allclose_default; '
         'a tensor equals its clone, its densification and its re-patterned copy; MultiTensor.allclose over every '
         'key-presence pattern of two MultiTensors with 3 keys, blocks in {absent, zero, 0.05, 1}, tol in {0, 0.1}, in the '
@@ -106,6 +106,13 @@ def pair(pa, pb, lim, r):
                     va2 = list(va)
                     va2[i] = va2[i] + 0.5
                     judge(pa, pb, da, db, va2, vb0, r)
+            # NaN / infinite contents (NaN differs from everything, itself included - also when both sides are one object)
+            if (da, db) in ((0., 0.), (1., 1.), (inf, inf)) and na:
+                for special, da2 in ((math.nan, da), (inf, da), (-inf, da), (1., math.nan)):
+                    va = [float(1 + (i % 3) * 0.5) for i in range(na)]
+                    va[0] = special
+                    A = mk(pa, da2, va).to_dense()
+                    judge(pa, pb, da2, da2 if da2 != da2 else db, va, P_project(A, pb), r)
 
 
 def P_project(A, pb):
@@ -152,18 +159,24 @@ def judge(pa, pb, da, db, va, vb, r):
                 r.bad('allclose-wrong', 'indices.PatternedTensor.allclose', 'allclose', '%s rtol=%g atol=%g: allclose=%r / reversed %r, torch %r / %r' % (desc, rtol, atol, g1, g2, w1, w2), case, key)
                 return
         # representation insensitivity
-        if not a.equal(a.clone()) or not a.equal(a) or not a.clone().equal(a):
-            r.bad('equal-wrong', 'indices.PatternedTensor.equal', 'equal-self', '%s: tensor != its clone' % desc, case, key)
+        selfeq = bool(torch.equal(A, A.clone()))          # False exactly when A holds a NaN
+        if bool(a.equal(a.clone())) != selfeq or bool(a.equal(a)) != selfeq or bool(a.clone().equal(a)) != selfeq:
+            r.bad('equal-wrong', 'indices.PatternedTensor.equal', 'equal-self', '%s: tensor vs itself / its clone: %r %r %r, torch.equal %r' % (desc, a.equal(a), a.equal(a.clone()), a.clone().equal(a), selfeq), case, key)
             return
+        for rtol, atol in TOLS[:2]:
+            wself = bool(torch.allclose(A, A.clone(), rtol=rtol, atol=atol))
+            if bool(a.allclose(a, rtol=rtol, atol=atol)) != wself or bool(a.allclose(a.clone(), rtol=rtol, atol=atol)) != wself:
+                r.bad('allclose-wrong', 'indices.PatternedTensor.allclose', 'allclose-self', '%s: allclose with itself %r / with its clone %r, torch.allclose %r' % (desc, a.allclose(a, rtol=rtol, atol=atol), a.allclose(a.clone(), rtol=rtol, atol=atol), wself), case, key)
+                return
         from fggs.indices import PatternedTensor
-        if not a.equal(PatternedTensor(A)) or not PatternedTensor(A).equal(a):
+        if bool(a.equal(PatternedTensor(A))) != selfeq or bool(PatternedTensor(A).equal(a)) != selfeq:
             r.bad('equal-wrong', 'indices.PatternedTensor.equal', 'equal-self', '%s: tensor != its densification' % desc, case, key)
             return
         ed = a.equal_default()
-        if bool(ed) != bool((a.physical == da).all()):
+        if da == da and bool(ed) != bool((a.physical == da).all()):
             r.bad('equal-wrong', 'indices.PatternedTensor.equal_default', 'equal_default', '%s: equal_default=%r' % (desc, ed), case, key)
             return
-        for rtol, atol in ((0., 0.5), (1e-5, 1e-8)):
+        for rtol, atol in ((0., 0.5), (1e-5, 1e-8)) if da == da else ():
             ad = a.allclose_default(rtol=rtol, atol=atol)
             wd = bool(torch.allclose(a.physical, torch.full_like(a.physical, da), rtol=rtol, atol=atol))
             if bool(ad) != wd:
